@@ -18,6 +18,7 @@ import (
 	"fmt"
 	"net/url"
 	"regexp"
+	"strings"
 
 	"github.com/oxia-db/oxia/common/compare"
 	"github.com/oxia-db/oxia/common/constant"
@@ -349,8 +350,26 @@ func doSecondaryGet(db kv.DB, req *proto.GetRequest) (primaryKey string, seconda
 		it.SeekGE(searchKey)
 	}
 
+	// Only the entries below this prefix belong to the requested index
+	indexPrefix := secondaryIdxKeyPrefix + "/" + indexName + "/"
+	// FLOOR starts from the first entry >= searchKey, which may already be past the
+	// end of the index, and walks backwards from there
+	pastEndOfIndex := req.ComparisonType == proto.KeyComparisonType_FLOOR
+
 	for it.Valid() {
 		itKey := it.Key()
+		if !strings.HasPrefix(itKey, indexPrefix) {
+			if pastEndOfIndex {
+				pastEndOfIndex = false
+				it.Prev()
+				continue
+			}
+
+			// We have left the index: there is no matching entry
+			return "", "", nil
+		}
+		pastEndOfIndex = false
+
 		primaryKey, secondaryKey, err = secondaryIndexPrimaryAndSecondaryKey(itKey)
 		if err != nil && !errors.Is(err, errFailedToParseSecondaryKey) {
 			return "", "", err
@@ -391,5 +410,6 @@ func doSecondaryGet(db kv.DB, req *proto.GetRequest) (primaryKey string, seconda
 		}
 	}
 
-	return primaryKey, secondaryKey, err
+	// The iterator was exhausted without finding a matching entry
+	return "", "", nil
 }
